@@ -278,7 +278,12 @@ pub fn gen_litmus_any(rng: &mut Rng, thorough: bool) -> Program {
 /// Judge a case (pure function of its arguments and of the loom tree).
 pub fn judge(check: &str, tier: &str, case: &Case, seed: u64, run: u64) -> CaseReport {
     crate::interp::CAUGHT_FIRED.with(|c| c.set(0));
+    crate::oracle::REPLAY_INCONCLUSIVE.with(|c| c.set(0));
     let mut rep = judge_inner(check, tier, case, seed, run);
+    let inconclusive = crate::oracle::REPLAY_INCONCLUSIVE.with(|c| c.get());
+    if inconclusive > 0 {
+        rep.extra.insert("replays_out_of_search_budget".into(), inconclusive);
+    }
     let placed = case.program.threads.iter().flatten().filter(|o| o.is_caught()).count() as u64;
     if placed > 0 {
         rep.extra.insert("fault_caught_panic_configured".into(), placed);
